@@ -198,8 +198,10 @@ where
         rep.counters.max("max_copies_stored", d.copies.len() as u64);
         let want_places = 32 + self.bucket(self.hi) as usize;
         if mon.layout {
-            if d.places != want_places {
-                return Err(Fail::new("layout:place-count", format!("tree has {} place lists, expected 32 + bucket(hi) = {}", d.places, want_places)));
+            // C14 asks that every place an in-domain range can use is backed by storage: the last
+            // reachable one is the leaf of hi's bucket. More lists than that (e.g. always 63) are fine.
+            if d.places < want_places {
+                return Err(Fail::new("layout:place-count", format!("tree has {} place lists, but places up to 31 + bucket(hi) = {} can be used", d.places, want_places - 1)));
             }
         }
         // per value: places where a copy is stored
